@@ -64,6 +64,16 @@ Section C05.
     (up (nodes s n) = true -> efirst (nodes s n) <= applied (nodes s n)).
   Proof. exact (truncate_safe_all raft_ok H_elect H_repl H_commit H_learn). Qed.
 
+  (* the forced branches (clear-entryLog-tolerate-time, clear-entryLog-tolerate-size) are covered by truncate_safe
+     for the member's OWN replay (the clamp makes any index safe locally). What they endanger is the OTHER members:
+     this holds under the extra hypothesis made explicit by wf_cfg's trunc_all - an index is used for truncation only
+     once EVERY member, also a dead one, has persisted it as committed. Then no node ever deletes an entry a member
+     still lacks, so no raft snapshot (which carries no shard data) is ever needed. Today's forced branches do not
+     satisfy it: Refuted.forced_truncation_strands_member_refuted. *)
+  Theorem leader_keeps_what_members_lack : forall c es s n m, wf_cfg c -> run raft_ok (init c) es = Some s ->
+    m < nn c -> efirst (nodes s n) <= hcommit (nodes s m) /\ efirst (nodes s n) <= length (elog (nodes s m)).
+  Proof. exact (members_keep_entries raft_ok H_elect H_repl H_commit H_learn). Qed.
+
   (* progress half of catch-up: the next known committed entry can always be applied; together with
      committed_survives_minority (reads = LWW of the applied prefix) a replica that reaches the commit point
      answers like every other *)
@@ -78,6 +88,7 @@ Print Assumptions committed_survives_minority.
 Print Assumptions any_replica_same_answer.
 Print Assumptions snapshot_index_safe.
 Print Assumptions truncate_safe.
+Print Assumptions leader_keeps_what_members_lack.
 Print Assumptions rejoin_catches_up.
 
 (* master rotation (GetNewRg / UpdateReplication, GenerateNewPeer, electRgMaster) *)
@@ -105,6 +116,17 @@ Theorem rotation_keeps_group : forall raft_ok c es s, 0 < nn c -> run raft_ok (i
   ~ In (master s) (peers s) /\ NoDup (peers s) /\ Permutation (master s :: peers s) (seq 0 (nn (cfg s))).
 Proof. intros raft_ok c es s Hn H. exact (rg_run raft_ok es (init c) s (rg_init c Hn) H). Qed.
 Print Assumptions rotation_keeps_group.
+
+(* coordinator (writeRowToShard): an acknowledgement to the client means the store acknowledged the final attempt;
+   while the store answers with retryable errors (no master yet) the request is retried and succeeds as soon as the
+   store accepts it within the budget ("writes are accepted again as soon as a new leader exists") *)
+Theorem coordinator_ack_only_after_store_ack : forall fuel script last calls,
+  fst (coord_retry fuel script last calls) = true -> In WOk (script ++ [last]).
+Proof. exact coord_ack_sound. Qed.
+Theorem coordinator_retries_until_master : forall k fuel last calls, k <= fuel ->
+  coord_retry fuel (repeat WRetry k ++ [WOk]) last calls = (true, S (k + calls)).
+Proof. exact coord_retries_until_ok. Qed.
+Print Assumptions coordinator_ack_only_after_store_ack.
 
 Theorem ack_only_after_successful_apply : forall u a, commit_result_repaired u a = true -> a = true.
 Proof. exact commit_result_repaired_sound. Qed.
@@ -153,7 +175,7 @@ Proof. vm_compute. repeat split. Qed.
    (snapshot index persisted) and commitSnapshot loses an acknowledged write on that replica although it counts as
    caught up *)
 Example snapshot_window_without_wal :
-  match run raft_ref (init (mkCfg 3 2 false true true))
+  match run raft_ref (init (mkCfg 3 2 false true true true false))
         [ RElect 0; Propose 0 [(1%N, 10%Z)]; Propose 0 [(2%N, 20%Z)]; RReplicate 1 2; RCommit 2; RLearn 0 2;
           Apply 0; Apply 0; UpdSnapc 0; FlushSwap 0; SnapPersist 0; Kill 0; Restart 0 ] with
   | Some s => length (acked s) = 2 /\ applied (nodes s 0) = length (glog s) /\ read s 0 1%N = None /\ read s 0 2%N = Some 20%Z
